@@ -122,7 +122,21 @@ static int split_flight(mx_conn *k, mx_ep *T, mx_ep *P, const unsigned char *b, 
 
 /* ---- feeding one unit as its own record ---- */
 static unsigned long long feed_seq; static unsigned long long dtls_rsn_next;
+static int feed_frag;      /* framing of the deviant flight: 0 = one handshake message per record, 1 = every handshake message split over two records */
+static int feed_unit_whole(mx_conn *k, mx_ep *T, mx_ep *P, const unit_t *u);
 static int feed_unit(mx_conn *k, mx_ep *T, mx_ep *P, const unit_t *u)
+{
+    /* record-layer fragmentation (not DTLS: its fragments carry their own headers; not TLS <= 1.2 protected records) */
+    /* TLS 1.3 hellos stay whole: the library decides between its two record decoders from a complete hello (a refused fragmented hello is no concern of this property) */
+    if (feed_frag && u->kind == U_HS && !k->dtls && u->len >= 12 && !(k->cfg.ver == MX_TLS13 && (u->type == 1 || u->type == 2)) && (k->cfg.ver == MX_TLS13 || !(T->ssl->flags & SSL_FLAGS_READ_SECURE))) {
+        int cut = 5 + (u->len - 5) / 2;     /* inside the body (a split inside the 4-byte handshake header is refused by the TLS 1.3 decoder: a limitation, not this property's subject) */
+        unit_t a = *u, b = *u; a.len = cut; b.body = u->body + cut; b.len = u->len - cut;
+        int rc = feed_unit_whole(k, T, P, &a); if (T->dead) return rc;
+        return feed_unit_whole(k, T, P, &b);
+    }
+    return feed_unit_whole(k, T, P, u);
+}
+static int feed_unit_whole(mx_conn *k, mx_ep *T, mx_ep *P, const unit_t *u)
 {
     static unsigned char rec[70000]; int n = 0, dtls = k->dtls;
     if (u->kind != U_HS) { memcpy(rec, u->body, u->len); n = u->len; }
@@ -152,12 +166,12 @@ static const char *tname(int t)
     case 22: return "CertificateStatus"; case 24: return "KeyUpdate"; case 99: return "unknown-99"; case T_CCS: return "ChangeCipherSpec"; case T_ENCFIN: return "Finished(protected)"; default: return "other"; }
 }
 
-typedef struct { mx_conn *k; const hmode_t *m; int role; int flightNo; int gstate0; devn_t dv; int resumedActually; int clientSentCert; int ticketNegotiated; } child_arg;
+typedef struct { mx_conn *k; const hmode_t *m; int role; int flightNo; int gstate0; devn_t dv; int resumedActually; int clientSentCert; int ticketNegotiated; int frag; } child_arg;
 static char cur_desc[256];
 static void report(const child_arg *a, const char *clause, int type, const char *fmt, ...)
 {
     char key[220], msg[700]; va_list ap; va_start(ap, fmt); vsnprintf(msg, sizeof msg, fmt, ap); va_end(ap);
-    snprintf(key, sizeof key, "c06:%s:%s:%s:%s:%s", clause, mx_vername[a->m->ver], a->role ? "server" : "client", dvname[a->dv.kind], tname(type));
+    snprintf(key, sizeof key, "c06:%s:%s:%s:%s%s:%s", clause, mx_vername[a->m->ver], a->role ? "server" : "client", dvname[a->dv.kind], a->frag ? "+fragmented" : "", tname(type));
     vf_violation(key, cur_desc, "%s | mode=%s flight=%d pos=%d", msg, a->m->name, a->flightNo, a->dv.pos);
 }
 
@@ -165,7 +179,7 @@ static void child_run(void *a_)
 {
     child_arg *a = a_; mx_conn *k = a->k; mx_ep *T = a->role == MX_SERVER ? &k->s : &k->c, *P = a->role == MX_SERVER ? &k->c : &k->s; int d = a->role == MX_SERVER ? 0 : 1;
     unit_t u[24], dseq[32]; int nu, nd = 0;
-    vf_stat("cases", 1);
+    vf_stat("cases", 1); feed_frag = a->frag; if (a->frag) vf_stat("cases_fragmented_framing", 1);
     nu = split_flight(k, T, P, k->q[d] + k->qoff[d], k->qlen[d] - k->qoff[d], u, 24);
     if (nu <= 0) { vf_stat("flight_not_splittable", 1); return; }
     k->qoff[d] = k->qlen[d];
@@ -194,7 +208,7 @@ static void child_run(void *a_)
     gctx_t g = { a->m, a->role, a->resumedActually, a->clientSentCert, a->ticketNegotiated }; int st = a->gstate0, illegalAt = -1;
     for (int i = 0; i < nd; i++) { int ns = g_next(&g, st, dseq[i].type); if (ns < 0) { illegalAt = i; break; } st = ns; }
     char seqs[400]; int so = 0; seqs[0] = 0; for (int i = 0; i < nd && so < 360; i++) so += snprintf(seqs + so, sizeof seqs - so, "%s%s%s", i ? "," : "", i == illegalAt ? "!" : "", tname(dseq[i].type));
-    vf_distinct("%s|%s|%d|f%d|%s|%d|%d", mx_vername[a->m->ver], a->m->name, a->role, a->flightNo, dvname[dv->kind], dv->pos, dv->type);
+    vf_distinct("%s|%s|%d|f%d|%s|%d|%d|fr%d", mx_vername[a->m->ver], a->m->name, a->role, a->flightNo, dvname[dv->kind], dv->pos, dv->type, a->frag);
     /* feed one message at a time */
     int firstAcceptedIllegal = -1, completedEarly = 0, completedAt = -1;
     for (int i = 0; i < nd; i++) {
@@ -281,11 +295,14 @@ run:
     for (int j = 0; j < nl; j++) {
         long idx = g_idx++;
         if (!vf_mine(idx)) continue;
-        child_arg a = { k, m, role, flightNo, gstate0, list[j], resumedActually, clientSentCert, ticketNeg };
-        snprintf(cur_desc, sizeof cur_desc, "mode=%s/%s role=%d flight=%d dev=%s pos=%d type=%d", mx_vername[m->ver], m->name, role, flightNo, dvname[list[j].kind], list[j].pos, list[j].type);
-        if (vf_case && strcmp(vf_case, cur_desc)) continue;
-        if (idx % 503 == 0) vf_sample("%s", cur_desc);
-        vf_fork_case(child_run, &a, "c06", cur_desc, 60);
+        for (int fr = 0; fr < 2; fr++) {
+            if (fr && (k->dtls || !(m->ver == MX_TLS13 || vf_thorough || (j % 3) == 0))) continue;     /* fragmented framing: all TLS 1.3 cases, a third of the TLS <= 1.2 ones in quick */
+            child_arg a = { k, m, role, flightNo, gstate0, list[j], resumedActually, clientSentCert, ticketNeg, fr };
+            snprintf(cur_desc, sizeof cur_desc, "mode=%s/%s role=%d flight=%d dev=%s pos=%d type=%d%s", mx_vername[m->ver], m->name, role, flightNo, dvname[list[j].kind], list[j].pos, list[j].type, fr ? " frag" : "");
+            if (vf_case && strcmp(vf_case, cur_desc)) continue;
+            if (idx % 503 == 0 && !fr) vf_sample("%s", cur_desc);
+            vf_fork_case(child_run, &a, "c06", cur_desc, 60);
+        }
     }
     for (int i = 0; i < nu; i++) free(u[i].body);
 }
